@@ -794,6 +794,18 @@ impl Model {
             self.known_ids.insert(i);
         }
         self.apply_released(cx, s);
+        // P12: a packet that starts or continues an exchange of ours on an id nobody holds is refused as invalid; there is
+        // nothing to release and nothing goes out
+        if let Some(i) = pkt.id() {
+            let own_kind = matches!(pkt, Pkt::Publish { qos: 1 | 2, .. } | Pkt::Subscribe { .. } | Pkt::Unsubscribe { .. } | Pkt::Ack { kind: AckKind::Pubrel, .. });
+            let role_ok = !matches!(pkt, Pkt::Subscribe { .. } | Pkt::Unsubscribe { .. }) || self.path == Some(Path::Client);
+            if own_kind && role_ok && !id_before_in_use && cx.status_before == St::Cd && Some(pkt.ver()) == self.ver && !self.unsynced && i >= 1 && i <= self.max_id {
+                s.hit("P12-send-on-a-free-id-is-refused");
+                if !has_err || sent_self || evs.iter().any(|e| matches!(e, Ev::Released(x) if *x == i)) {
+                    s.fail("C08", "P12-send-on-a-free-id-is-refused", format!("kind={:?};err={}", pkt.kind(), if has_err { err_name.as_str() } else { "none" }), format!("send({}) with packet id {} that is not in use: {}", pkt.short(), i, evs_short(evs)));
+                }
+            }
+        }
         // X4: once the transport has been reported closed the object accepts a new connection
         if let Pkt::Connect { ver, .. } = pkt {
             if cx.status_before == St::D && self.role != Role::Server && self.ver == Some(*ver) {
